@@ -106,3 +106,6 @@ Lemma total_scanForPragmaArg : forall ws skip start plen text,
   all_bytes text -> 0 <= plen <= len text ->
   scanForPragmaArg ws skip start plen text <> Crash /\ scanForPragmaArg ws skip start plen text <> Hang.
 Proof. intros. apply safe_not_crash_hang. apply scanForPragmaArg_total; assumption. Qed.
+
+Lemma total_js_template_rescan : total_on (fun t => all_bytes t /\ 1 <= len t) run_jstemplate_tail.
+Proof. intros t [Hb Hn]. apply safe_not_crash_hang. apply run_jstemplate_tail_total; assumption. Qed.
